@@ -1,5 +1,5 @@
 import AgModel.Proofs.Blockstore
-/-! Honest-leader invariant of `AgModel.Blockstore.addShred` (core Lean only). -/
+/-! Honest-leader invariant of `AgModel.Blockstore.addShredCore` (core Lean only). -/
 namespace AgModel.Blockstore
 open AgModel.Merkle
 
@@ -88,6 +88,9 @@ structure WF (B : HBlock) (env : Nat → Content) (cap : Nat) : Prop where
 
 /-- a shred the leader produced for this block (any slice, any index) -/
 def Honest (B : HBlock) (s : Shred) : Prop := s.slice < B.n ∧ s.idx < TOTAL_SHREDS ∧ s = B.shred s.slice s.idx
+/-- the leader's shreds carry the data/coding type that fits their index -/
+theorem Honest.ty {B : HBlock} {s : Shred} (hs : B.Honest s) : s.ty = true := by
+  rw [hs.2.2]; rfl
 end HBlock
 
 open HBlock
@@ -417,8 +420,8 @@ theorem storeStep_good (B : HBlock) (env : Nat → Content) (cap : Nat) (hwf : B
 /-- **The honest-leader invariant.** -/
 theorem addShred_good (B : HBlock) (env : Nat → Content) (cap : Nat) (hwf : B.WF env cap)
     (b : BlockData) (s : Shred) (hg : Good B cap b) (hs : B.Honest s) :
-    Good B cap (addShred env b s).1 ∧ HonestRes B (addShred env b s).2 := by
-  unfold addShred
+    Good B cap (addShredCore env b s).1 ∧ HonestRes B (addShredCore env b s).2 := by
+  unfold addShredCore
   obtain ⟨b1, hc, hg1⟩ := cacheStep_good B cap b s hg hs
   rw [hc]
   simp only
@@ -447,8 +450,8 @@ theorem lastStep_completed' (b b1 : BlockData) (s : Shred) (h : lastStep b s = s
   all_goals (subst h; rfl)
 
 theorem addShred_of_completed (env : Nat → Content) (b : BlockData) (s : Shred) (h : b.completed.isSome = true) :
-    (addShred env b s).1.completed = b.completed ∧ ∀ info, (addShred env b s).2 ≠ .ev (.block info) := by
-  unfold addShred
+    (addShredCore env b s).1.completed = b.completed ∧ ∀ info, (addShredCore env b s).2 ≠ .ev (.block info) := by
+  unfold addShredCore
   cases hc : cacheStep b s with
   | none => exact ⟨rfl, by intro info; simp⟩
   | some b1 =>
